@@ -139,8 +139,16 @@ func ResolvedPromptly(t *Truth) *Report {
 				// it as resolved must have happened (at any time after the end).
 				window := n.GroupInterval + slack
 				horizon := r.End
-				if ep.To.Before(horizon) {
-					horizon = ep.To
+				// a reload to an identical configuration (not a restart: alerts are not persisted) continues the
+				// obligation: the new dispatcher finds the alert and the log entry and owes the same resolution
+				epEnd := ep.To
+				for _, nx := range r.Epochs {
+					if nx.From.Equal(epEnd) && !nx.Restart && nx.Config.YAML() == ep.Config.YAML() {
+						epEnd = nx.To
+					}
+				}
+				if epEnd.Before(horizon) {
+					horizon = epEnd
 				}
 				// the notification-log entry is only kept for 2*max(repeat_interval, group_interval)
 				// (documented expiry): beyond that the receiver's last state is forgotten by design
